@@ -32,6 +32,10 @@ MARKER_PROPS = {
     "VF:slice_opt.accessors_disagree": ["C13"],
     "VF:dense_owned.": ["C12", "C01", "C20"],
     "VF:flatstack_ctor.": ["C10", "C03"],
+    "VF:ref_forms.": ["C20"],
+    "VF:ref_forms.read_differs": ["C20", "C01", "C02"],
+    "VF:values.zst.": ["C01"],
+    "VF:coded_life.merge": ["C10", "C01"],
     "VF:values.": ["C01", "C14"],
     "VF:values.float.read_differs": ["C01"],
     "VF:values.tuple.read_differs": ["C01"],
